@@ -49,7 +49,19 @@ std::vector<Half> halves(const LP &m, std::map<std::string, Half> *named) {
 }
 }
 
+// a name both formats can carry without repair: LP-format name characters only (the LP writer renames anything else), no
+// leading digit or '.', and not one of the words the LP grammar reserves
+static bool plain_name(const std::string &n) {
+	if (n.empty() || n.size() > 200) return false;
+	for (size_t k = 0; k < n.size(); k++) { unsigned char c = (unsigned char)n[k]; bool ok = (c >= 'a' && c <= 'z') || (c >= 'A' && c <= 'Z') || (k > 0 && ((c >= '0' && c <= '9') || c == '.')) || (c != 0 && strchr("!\"#$%&()/,;?@_`'{}|~", c) != 0); if (!ok) return false; }
+	std::string l; for (char c : n) l.push_back((char)tolower((unsigned char)c));
+	static const char *kw[] = {"free", "inf", "infinity", "st", "s.t.", "st.", "subject", "to", "such", "that", "max", "min", "maximize", "minimize", "maximum", "minimum", "bounds", "bound", "end", "integer", "integers", "general", "generals", "binary", "binaries", "problem", "prob", "name", 0};
+	for (int k = 0; kw[k]; k++) if (l == kw[k]) return false;
+	return true;
+}
 bool Exec::roundtrip_precondition(const LP &m) {
+	for (auto &c : m.cols) if (!plain_name(c.name)) return false;
+	for (auto &r : m.rows) if (!plain_name(r.name)) return false;
 	bool anyrow = false; std::vector<char> used(m.cols.size(), 0);
 	for (size_t j = 0; j < m.cols.size(); j++) if (m.cols[j].obj != 0) used[j] = 1;
 	for (auto &r : m.rows) { bool ne = false; for (auto &kv : r.coef) if (kv.second != 0) { used[kv.first] = 1; ne = true; } if (ne) anyrow = true; }
@@ -103,7 +115,9 @@ void Exec::op_write(Client &c) {
 	T(strf("  write %s via=%s path=%s rv=%d bytes=%d hash=%s", fmt.c_str(), via.c_str(), path.c_str(), rv, stored ? (int)world.files[path].size() : -1, stored ? hex64(hashstr(world.files[path])).c_str() : "-"));
 	signature("write:" + fmt + ":" + via + ":" + o->life + strf(":%d", rv != 0));
 	if (trace && stored) { bool okz; std::string raw = raw_bytes(path, world.files[path], &okz); size_t pos = 0; int ln = 0; while (pos < raw.size() && ln < 60) { size_t e = raw.find('\n', pos); if (e == std::string::npos) e = raw.size(); out_line("F   " + raw.substr(pos, std::min<size_t>(e - pos, 300))); pos = e + 1; ln++; } }
-	FileInfo fi2; fi2.fmt = fmt; fi2.model = o->m; fi2.damaged = destructive || world.damaged_paths.count(path) != 0 || rv != 0 || !stored; fi2.kind = "prob"; fi2.precond = roundtrip_precondition(o->m); fi2.chain = o->from_file_chain;
+	FileInfo fi2; fi2.fmt = fmt; fi2.model = o->m; fi2.damaged = destructive || world.damaged_paths.count(path) != 0 || rv != 0 || !stored; fi2.kind = "prob"; fi2.precond = roundtrip_precondition(o->m);
+	{ char *pn = mpq_QSget_probname(o->p), *on = mpq_QSget_objname(o->p);   // problem and objective names are written verbatim too (a name read from a damaged file may not be a token)
+		if ((pn && !plain_name(pn)) || (on && !plain_name(on))) fi2.precond = false; mpq_QSfree(pn); mpq_QSfree(on); } fi2.chain = o->from_file_chain;
 	files[path] = fi2; prob_paths.erase(std::remove(prob_paths.begin(), prob_paths.end(), path), prob_paths.end()); prob_paths.push_back(path);
 	if (destructive && rv == 0) probe("io.write_error_swallowed");
 	if (!before.empty() && snapshot(*o) != before) violate("C16", "write-changed-object:" + fmt, "writing a problem changed what is observed of it");
@@ -237,15 +251,26 @@ static std::string render_lp(const LP &m, long style) {
 	s += up ? "BOUNDS\n" : "Bounds\n";
 	for (auto &c : m.cols) { if (!c.lo.fin() && !c.up.fin()) s += " " + c.name + " free\n"; else if (c.lo.fin() && c.up.fin() && c.lo.v == c.up.v) s += " " + c.name + " = " + lit(c.lo.v, style) + "\n";
 		else { bool deflo = c.lo.fin() && c.lo.v == 0, defup = !c.up.fin() && c.up.inf > 0; if (deflo && defup) continue; s += " " + (c.lo.fin() ? lit(c.lo.v, style) : std::string("-inf")) + " <= " + c.name + " <= " + (c.up.fin() ? lit(c.up.v, style) : std::string("+inf")) + "\n"; } }
+	if (style % 4 == 1 && !m.cols.empty()) {   // an integer section: only files can mark columns integer
+		std::string sec; for (size_t j = 0; j < m.cols.size(); j++) if ((j + (size_t)(style / 4)) % 3 == 0) sec += " " + m.cols[j].name;
+		if (!sec.empty()) s += std::string(style % 8 == 1 ? "Integer\n" : "General\n") + sec + "\n"; }
 	s += up ? "END\n" : "End\n"; return s;
 }
 static std::string render_mps(const LP &m, long style) {
 	std::string s = "NAME foreign\nROWS\n N obj\n";
+	bool extra_free = style % 11 == 5, ints = style % 4 == 1; bool in_int = false;
+	if (extra_free) s += " N zfree\n";   // a second free row: columns that only appear there are dropped by the reader
 	for (auto &r : m.rows) s += std::string(" ") + (r.sense == 'R' ? 'G' : r.sense) + " " + r.name + "\n";
 	s += "COLUMNS\n";
-	for (size_t j = 0; j < m.cols.size(); j++) { const MCol &c = m.cols[j]; bool any = false; if (c.obj != 0) { s += " " + c.name + " obj " + lit(c.obj, style) + "\n"; any = true; }
+	if (extra_free) s += " zdrop zfree 1\n";
+	for (size_t j = 0; j < m.cols.size(); j++) { const MCol &c = m.cols[j]; bool any = false;
+		bool want_int = ints && (j + (size_t)(style / 4)) % 3 == 0;
+		if (want_int != in_int) { s += std::string(" MARKER MARKER ") + (want_int ? "'INTORG'" : "'INTEND'") + "\n"; in_int = want_int; }
+		if (extra_free && j + 1 == m.cols.size()) for (auto &r : m.rows) { auto it = r.coef.find((int)j); if (it != r.coef.end() && it->second != 0) { s += " " + c.name + " " + r.name + " 1\n"; break; } }   // the same entry twice
+		if (c.obj != 0) { s += " " + c.name + " obj " + lit(c.obj, style) + "\n"; any = true; }
 		for (auto &r : m.rows) { auto it = r.coef.find((int)j); if (it != r.coef.end() && it->second != 0) { s += " " + c.name + " " + r.name + " " + lit(it->second, style + (long)j) + "\n"; any = true; } }
 		if (!any) s += " " + c.name + " obj 0\n"; }
+	if (in_int) s += " MARKER MARKER 'INTEND'\n";
 	s += "RHS\n"; for (auto &r : m.rows) if (r.rhs != 0) s += " RHS " + r.name + " " + lit(r.rhs, style) + "\n";
 	bool anyr = false; for (auto &r : m.rows) if (r.sense == 'R') anyr = true;
 	if (anyr) { s += "RANGES\n"; for (auto &r : m.rows) if (r.sense == 'R') s += " RNG " + r.name + " " + lit(r.range, style) + "\n"; }
@@ -330,6 +355,8 @@ void Exec::op_rbasis(Client &c) {
 		for (size_t j = 0; j < wc.size() && d.empty(); j++) { char w = wc[j], r = got.cstat[j]; if ((w == '1') != (r == '1') || (w == '2') != (r == '2')) d = strf("column %d written %c read %c", (int)j, w, r); }
 		for (size_t i = 0; i < wr.size() && d.empty(); i++) { char w = wr[i], r = got.rstat[i]; if ((w == '1') != (r == '1') || ((w == '2') != (r == '2') && o->m.rows[i].sense == 'R')) d = strf("row %d written %c read %c", (int)i, w, r); }
 		if (!d.empty()) violate("C14", "basis-roundtrip", d + " (written " + wc + "|" + wr + ", read " + got.cstat + "|" + got.rstat + ")");
+		else if ([&]() { for (size_t j = 0; j < wc.size(); j++) { const MCol &mc = o->m.cols[j]; if ((wc[j] == '3' && (mc.lo.fin() || mc.up.fin())) || (wc[j] == '2' && !mc.up.fin()) || (wc[j] == '0' && !mc.lo.fin() && mc.up.fin())) return true; } return false; }())
+			probe("c14.skipped_status_without_bound");   // a status left over from before a bound edit names a bound the column does not have: not a valid basis of this problem
 		else { BasisEval a = eval_basis(o->m, wc, wr), b2 = eval_basis(o->m, got.cstat, got.rstat); if (a.counts_ok && b2.counts_ok && !a.singular && !b2.singular && (a.x != b2.x || a.slack != b2.slack)) violate("C14", "basis-roundtrip-solution", "the basis read back has a different basic solution"); else probe("c14.roundtrip_ok"); }
 	} else if (!have && !damaged && same_problem) violate("C14", "basis-reader-rejects-writer-output", "the basis reader failed on an undamaged file written for the same problem");
 	if (have && !load) { got.origin = "file"; c.bases.push_back(got); if (c.bases.size() > 8) c.bases.erase(c.bases.begin()); }
